@@ -160,7 +160,7 @@ fn worker(scs: &[Scenario], args: &[String]) {
     for idx in start..end {
         {
             let mut o = out.lock();
-            let _ = writeln!(o, "S {idx}");
+            let _ = writeln!(o, "@S {idx}");
             let _ = o.flush();
         }
         let seed = run_seed(base, &full, idx);
@@ -168,7 +168,7 @@ fn worker(scs: &[Scenario], args: &[String]) {
         let r = run_one(sc, Tape::from_seed(seed).with_index(idx), verbose, seed);
         if let Some(h) = r.harness_panic {
             let mut o = out.lock();
-            let _ = writeln!(o, "H {idx} {}", Json::str(h).to_string_compact());
+            let _ = writeln!(o, "@H {idx} {}", Json::str(h).to_string_compact());
             let _ = o.flush();
             std::process::exit(2);
         }
@@ -194,18 +194,18 @@ fn worker(scs: &[Scenario], args: &[String]) {
         logsum = logsum.wrapping_add(mix(&[h, 0x10c]));
         if let Some(v) = &r.violation {
             let mut o = out.lock();
-            let _ = writeln!(o, "V {idx} {}", viol_json(v).to_string_compact());
+            let _ = writeln!(o, "@V {idx} {}", viol_json(v).to_string_compact());
         }
         if !r.stats.emits.is_empty() {
             let mut o = out.lock();
             for e in r.stats.emits.iter() {
-                let _ = writeln!(o, "D {idx} {}", e.replace('\n', " "));
+                let _ = writeln!(o, "@D {idx} {}", e.replace('\n', " "));
             }
         }
         if verbose {
             if let Some(s) = &r.stats.sample {
                 let mut o = out.lock();
-                let _ = writeln!(o, "M {idx} {}", Json::str(s.clone()).to_string_compact());
+                let _ = writeln!(o, "@M {idx} {}", Json::str(s.clone()).to_string_compact());
             }
         }
     }
@@ -216,7 +216,7 @@ fn worker(scs: &[Scenario], args: &[String]) {
         .set("max_alloc", Json::Int(max_alloc as i128))
         .set("draws", Json::Arr(draws.iter().map(|d| Json::Int(*d as i128)).collect()));
     let mut o = out.lock();
-    let _ = writeln!(o, "A {}", agg.to_string_compact());
+    let _ = writeln!(o, "@A {}", agg.to_string_compact());
     let _ = o.flush();
 }
 
@@ -339,6 +339,8 @@ fn run_scenario(exe: &std::path::Path, sc: &Scenario, base: u64, total: u64, job
             Ok(Msg::Line(i, line)) => {
                 let Some(slot) = slots[i].as_mut() else { continue };
                 slot.last_progress = Instant::now();
+                // protocol lines start with '@'; anything else is output of the code under test
+                let Some(line) = line.strip_prefix('@') else { continue };
                 let (tag, rest) = line.split_at(line.len().min(1));
                 let rest = rest.trim_start();
                 match tag {
@@ -920,8 +922,8 @@ fn replay(scs: &[Scenario], exe: &std::path::Path, args: &[String]) -> i32 {
                     let mut out = String::new();
                     use std::io::Read;
                     let _ = child.stdout.take().unwrap().read_to_string(&mut out);
-                    if out.lines().any(|l| l.starts_with("A ")) {
-                        if let Some(v) = out.lines().find(|l| l.starts_with("V ")) {
+                    if out.lines().any(|l| l.starts_with("@A ")) {
+                        if let Some(v) = out.lines().find(|l| l.starts_with("@V ")) {
                             println!("DIFFERENT {v}");
                         } else {
                             println!("NOT-REPRODUCED run completed");
